@@ -1,6 +1,7 @@
 package rules
 
 import (
+	"go/types"
 	"fmt"
 	"go/token"
 	"sort"
@@ -375,30 +376,44 @@ func runLoopOrder(c *core.Ctx) {
 			}
 			early++
 			rv := an.ReturnValues(an.LastInstr(rb).(*ssa.Return))
-			if len(rv) != 1 {
-				good = false
-				continue
-			}
 			// assume that verdict at the call site: the request select must be out of reach
 			fr := an.NoSubject()
-			switch {
-			case isConstBool(rv[0], true):
-				fr.Assume = map[ssa.Value]bool{ssa.Value(site): true}
-			case isConstBool(rv[0], false):
-				fr.Assume = map[ssa.Value]bool{ssa.Value(site): false}
-			default:
-				// an error: non-nil
-				fr.Assume = map[ssa.Value]bool{}
+			fr.Assume = map[ssa.Value]bool{}
+			// the values the caller sees: the call itself (one result) or its extracts
+			seen := func(i int) []ssa.Value {
+				if len(rv) == 1 {
+					return []ssa.Value{site}
+				}
+				var vs []ssa.Value
 				if site.Referrers() != nil {
 					for _, r := range *site.Referrers() {
-						if bin, isBin := r.(*ssa.BinOp); isBin && an.IsNilConst(bin.Y) {
-							fr.Assume[bin] = bin.Op == token.NEQ
+						if ex, isEx := r.(*ssa.Extract); isEx && ex.Index == i {
+							vs = append(vs, ex)
 						}
 					}
 				}
-				if len(fr.Assume) == 0 || an.IsNilConst(rv[0]) {
-					good = false
+				return vs
+			}
+			for i, v := range rv {
+				for _, cv := range seen(i) {
+					switch {
+					case isConstBool(v, true):
+						fr.Assume[cv] = true
+					case isConstBool(v, false):
+						fr.Assume[cv] = false
+					case !an.IsNilConst(v):
+						if _, isErr := v.Type().Underlying().(*types.Interface); isErr && cv.Referrers() != nil {
+							for _, r := range *cv.Referrers() {
+								if bin, isBin := r.(*ssa.BinOp); isBin && an.IsNilConst(bin.Y) {
+									fr.Assume[bin] = bin.Op == token.NEQ
+								}
+							}
+						}
+					}
 				}
+			}
+			if len(fr.Assume) == 0 {
+				good = false
 			}
 			var pruned []an.Edge
 			an.Instrs(serve, func(in ssa.Instruction) {
